@@ -283,11 +283,16 @@ func checkC12(cx *Ctx, r *Report) {
 	add("GetEntityByID:entityID", ls, len(c2), []string{q + ".Issuer.Text"}, []string{q + ".Issuer.Text"}, true)
 	ls, c3 := vf.CallArgSources(matchFnKey(w, "provider.createPostSignature"), 0)
 	add("createPostSignature:response", ls, len(c3), []string{"alloc:{samlp.ResponseType}*"}, []string{"alloc:{samlp.ResponseType}*"}, false)
-	ls, c4 := vf.CallArgSources(matchFnKey(w, "provider.makeAttributeQueryResponse"), 3)
+	isAttrsT := func(t types.Type) bool { return typeKey(t) == "provider.Attributes" && isPtrLike(t) }
+	isQueriedT := func(t types.Type) bool {
+		sl, ok := t.Underlying().(*types.Slice)
+		return ok && typeKey(sl.Elem()) == "saml.AttributeType" && !isPtrLike(sl.Elem())
+	}
+	ls, c4 := vf.CallArgSourcesByType(matchFnKey(w, "provider.makeAttributeQueryResponse"), isAttrsT)
 	add("makeAttributeQueryResponse:attributes", ls, len(c4), []string{"alloc:{provider.Attributes}*"}, nil, false)
 	ls, c5 := vf.CallArgSources(matchStorage("SetUserinfoWithLoginName"), 1)
 	add("SetUserinfoWithLoginName:setter", ls, len(c5), []string{"alloc:{provider.Attributes}*"}, nil, false)
-	ls, c6 := vf.CallArgSources(matchFnKey(w, "provider.makeAttributeQueryResponse"), 4)
+	ls, c6 := vf.CallArgSourcesByType(matchFnKey(w, "provider.makeAttributeQueryResponse"), isQueriedT)
 	add("makeAttributeQueryResponse:queried", vf.Deep(ls), len(c6), []string{q + ".Attribute[]", q + ".Attribute", "alloc:*"}, []string{q + ".Attribute*"}, false)
 	ls, s7 := vf.FieldStoreSources("soap.ResponseBody", "Response")
 	add("soap.ResponseBody.Response", ls, len(s7), []string{"alloc:{samlp.ResponseType}*"}, []string{"alloc:{samlp.ResponseType}*"}, false)
@@ -300,7 +305,8 @@ func checkC12(cx *Ctx, r *Report) {
 	}
 	// the same Attributes object is filled by storage and read by the constructor
 	if len(c4) == 1 && len(c5) == 1 {
-		a, b := vf.Labels(c4[0].Common().Args[3]).leaves(), vf.Labels(c5[0].Common().Args[1]).leaves()
+		la, _ := vf.CallArgSourcesByType(matchFnKey(w, "provider.makeAttributeQueryResponse"), isAttrsT)
+		a, b := la.leaves(), vf.Labels(c5[0].Common().Args[1]).leaves()
 		r.Check(len(a) == 1 && len(b) == 1 && a[0] == b[0], "R-VFG", "attr:same-attributes-object", w.InstrPos(c4[0]), "the response is built from the object storage filled for the queried subject", "the response is built from a different Attributes object than the one storage filled")
 	}
 	_ = fx
@@ -412,7 +418,7 @@ func (cx *Ctx) checkAttrFilter(r *Report) {
 			u, eqName, eqFmt := false, false, false
 			var nameOther, fmtOther string
 			for _, a := range pt.Atoms {
-				if (a.Op == "EMPTY" || a.Op == "NIL") && !a.Neg && strings.HasPrefix(a.TA, "<#") && strings.HasSuffix(a.TA, "[]saml.AttributeType>") {
+				if (a.Op == "EMPTY" || a.Op == "NIL") && !a.Neg && isQueriedAtom(a) {
 					u = true
 				}
 				if a.Op == "EQ" && !a.Neg {
@@ -469,7 +475,7 @@ func (cx *Ctx) checkAttrFilter(r *Report) {
 			for _, pt := range pts {
 				has := false
 				for _, a := range pt.Atoms {
-					if a.Op == "EMPTY" && a.Neg && strings.HasPrefix(a.TA, "<#") && strings.HasSuffix(a.TA, "[]saml.AttributeType>") {
+					if a.Op == "EMPTY" && a.Neg && isQueriedAtom(a) {
 						has = true
 					}
 				}
@@ -486,4 +492,27 @@ func (cx *Ctx) checkAttrFilter(r *Report) {
 		}
 	}
 	r.Min("R-GUARD", 3)
+}
+
+// isQueriedAtom: the atom is about the list of requested attributes - a []saml.AttributeType value (the user's own
+// list is []*saml.AttributeType), whether it is a parameter or a field of a parameter object.
+func isQueriedAtom(a Atom) bool {
+	if strings.HasPrefix(a.TA, "<#") && strings.HasSuffix(a.TA, "[]saml.AttributeType>") {
+		return true
+	}
+	return strings.HasSuffix(a.TA, ".queriedAttrs") || strings.HasSuffix(a.TA, ".queried") || strings.HasSuffix(a.TA, ".QueriedAttributes") || atomSubjectIsQueriedList(a)
+}
+
+func atomSubjectIsQueriedList(a Atom) bool {
+	v := emptySubject(a)
+	if v == nil {
+		if x, _, ok := nilTest(a.Cond); ok {
+			v = x
+		}
+	}
+	if v == nil {
+		return false
+	}
+	sl, ok := v.Type().Underlying().(*types.Slice)
+	return ok && typeKey(sl.Elem()) == "saml.AttributeType" && !isPtrLike(sl.Elem())
 }
